@@ -16,10 +16,11 @@ import pyref
 FAMILY = "theta"
 CORR = "Theta"             # Coq module DS.Corr.Theta
 FAMNUM = 5
-ORACLES = {"kmv_ok": 0, "layout_ok": 1}
-GEN_MODULES = [("GenTheta", ["theta/hash_table.rs", "theta/serialization.rs", "theta/sketch.rs"],
+ORACLES = {"kmv_ok": 0, "layout_ok": 1, "roundtrip_ok": 2, "layout12_ok": 3, "foreign_ok": 4, "no_panic": 5, "size_ok": 6}
+GEN_MODULES = [("GenTheta", ["theta/hash_table.rs", "theta/serialization.rs", "theta/sketch.rs", "theta/bit_pack.rs"],
                 ["MAX_THETA", "MIN_LG_K", "MAX_LG_K", "RESIZE_THRESHOLD", "REBUILD_THRESHOLD", "STRIDE_HASH_BITS", "STRIDE_MASK",
-                 "UNCOMPRESSED_SERIAL_VERSION", "COMPRESSED_SERIAL_VERSION", "FLAGS_IS_READ_ONLY", "FLAGS_IS_EMPTY",
+                 "UNCOMPRESSED_SERIAL_VERSION", "COMPRESSED_SERIAL_VERSION", "V2_PREAMBLE_EMPTY", "V2_PREAMBLE_PRECISE",
+                 "V2_PREAMBLE_ESTIMATE", "BLOCK_WIDTH", "FLAGS_IS_READ_ONLY", "FLAGS_IS_EMPTY",
                  "FLAGS_IS_COMPACT", "FLAGS_IS_ORDERED",
                  "LIT_get_stride", "LIT_hash_and_screen", "LIT_find_in_entries", "LIT_try_insert", "LIT_rebuild", "LIT_resize",
                  "LIT_trim", "LIT_new", "LIT_starting_sub_multiple", "LIT_preamble_longs"],
@@ -27,7 +28,8 @@ GEN_MODULES = [("GenTheta", ["theta/hash_table.rs", "theta/serialization.rs", "t
                                          "trim", "new", "starting_sub_multiple"],
                  "theta/sketch.rs": ["preamble_longs"]})]
 OPNAMES = {1: "update", 2: "insert_hash", 3: "update_preimage", 4: "trim", 5: "reset", 6: "compact", 7: "dump",
-           8: "layout", 9: "layout_exact", 10: "serialize"}
+           8: "layout", 9: "layout_exact", 10: "serialize", 11: "serialize_compressed", 12: "deserialize", 13: "reserialize",
+           14: "roundtrip"}
 CORR_MASK = [1, 2, 3, 4, 5, 6, 7, 9, 10]   # op 8 (raw layout at any time) is judged by the layout oracle only
 
 M = (1 << 64) - 1
@@ -109,7 +111,12 @@ def gen_case(rng, cid, tier, lg_k=None, size_class=None):
         else:
             lg_k = rng.choice([5, 5, 6, 6, 7, 7, 8, 8, 9, 10, 11, 12, 13, 14])
     rf = rng.choice([0, 1, 2, 3])
+    # how far to go: below nominal (exact mode, resizes), well into estimation mode, or (sampling sketches)
+    # a few updates that theta screens out: the sketch is not empty although it retains nothing
+    size_class = size_class or rng.choice(["tiny", "exact", "est", "est", "deep", "screened"])
     pbits, p = f32_widened_bits(rng.choice([1.0, 1.0, 1.0, 0.5, 0.5, 1e-3, 0.999, 0.25, 2.0 ** -20]))
+    if size_class == "screened":
+        pbits, p = f32_widened_bits(rng.choice([2.0 ** -20, 2.0 ** -30, 1e-3]))
     seed = rng.choice([9001, 9001, 0, 1, 2**64 - 1, rng.getrandbits(64)])
     if pyref.seed_hash(seed) == 0:
         seed = 9001
@@ -181,13 +188,11 @@ def gen_case(rng, cid, tier, lg_k=None, size_class=None):
         else:
             ops.append((9 if lg_k <= 9 else 7, []))
 
-    # how far to go: below nominal (exact mode, resizes), or well into estimation mode
-    size_class = size_class or rng.choice(["tiny", "exact", "est", "est", "deep"])
     target = {"tiny": rng.randint(0, 12), "exact": rng.randint(k // 4, k), "est": rng.randint(2 * k, 4 * k),
-              "deep": rng.randint(4 * k, 8 * k)}[size_class]
+              "deep": rng.randint(4 * k, 8 * k), "screened": rng.randint(1, 8)}[size_class]
     if lg_k >= 11:
         target = min(target, 5 * k // 2)
-    if p < 1.0 and p < 0.01:
+    if p < 1.0 and p < 0.01 and size_class != "screened":
         target = min(target * 4, 40000)      # most hashed items are screened out
     nphases = rng.choice([1, 2, 3])
     obs_every = max(8, target // rng.choice([3, 5, 8])) if not small else max(3, target // rng.choice([4, 10, 25]))
@@ -196,7 +201,7 @@ def gen_case(rng, cid, tier, lg_k=None, size_class=None):
     done = 0
     next_item = rng.choice([0, 1, -5, rng.getrandbits(63), -rng.getrandbits(62)])
     for ph in range(nphases):
-        style = rng.choice(["items", "items", "mixed", "mixed", "crafted", "smallhash"])
+        style = rng.choice(["items", "items", "mixed", "mixed", "crafted", "smallhash"]) if size_class != "screened" else "items"
         todo = target // nphases + 1
         while todo > 0:
             r = rng.random()
@@ -264,8 +269,265 @@ def gen_case(rng, cid, tier, lg_k=None, size_class=None):
     return Case(cid, [lg_k, rf, pbits, seed, sh], ops, tag="theta-lgk%d-rf%d" % (lg_k, rf))
 
 
+# ---------------------------------------------------------------------------------------------------
+# codec legs (C11, C12, C13, C14, C18 parts): see Corr/Theta.v ops 11..14
+# ---------------------------------------------------------------------------------------------------
+def cfg_of(rng, lg_k=None, p=None):
+    lg_k = lg_k or rng.choice([5, 6, 7, 8, 10, 12])
+    rf = rng.choice([0, 1, 2, 3])
+    pbits, pf = f32_widened_bits(p if p is not None else rng.choice([1.0, 1.0, 0.5, 0.25]))
+    seed = rng.choice([9001, 9001, 0, 1, 2**64 - 1, rng.getrandbits(64)])
+    if pyref.seed_hash(seed) == 0:
+        seed = 9001
+    theta0 = MAX_THETA if pf >= 1.0 else int((2.0 ** 63) * pf)
+    return [lg_k, rf, pbits, seed, pyref.seed_hash(seed)], theta0
+
+
+def crafted_entries(rng, n, width, limit):
+    """n ascending distinct hashes below limit whose deltas need exactly `width` bits (when they fit)"""
+    width = max(1, min(width, limit.bit_length() - 1))
+    ds = []
+    big = rng.randrange(n) if n else 0
+    room = limit - 1
+    for i in range(n):
+        if i == big:
+            d = (1 << (width - 1)) | rng.getrandbits(width - 1) if width > 1 else 1
+        else:
+            w = rng.randint(1, width)
+            d = max(1, rng.getrandbits(w))
+        ds.append(d)
+    # scale down if the sum does not fit
+    out, acc = [], 0
+    for d in ds:
+        if acc + d >= limit:
+            d = 1
+            if acc + d >= limit:
+                break
+        acc += d; out.append(acc)
+    return out
+
+
+def gen_codec_case(rng, cid, tier):
+    """a sketch built from crafted hashes (hook) or items, then serialized both ways, forked through the image"""
+    kind = rng.choice(["crafted", "crafted", "crafted", "stream", "screened", "empty"])
+    if kind == "crafted":
+        n = rng.choice([0, 1, 2, 3, 7, 8, 9, 15, 16, 17, 23, 24, 25, 31, 63, 64, 65, rng.randint(0, 300)])
+        if tier == "thorough" and rng.random() < 0.1:
+            n = rng.randint(300, 4100)
+        if tier == "quick" and rng.random() < 0.03:
+            n = rng.randint(2000, 4100)
+        lg_k = 12 if n > 40 else rng.choice([6, 8, 12])
+        cfg, theta0 = cfg_of(rng, lg_k=lg_k, p=rng.choice([1.0, 1.0, 0.5]))
+        width = rng.randint(1, 63)
+        es = crafted_entries(rng, n, width, theta0)
+        rng.shuffle(es)
+        ops = [(7, [])] + [(2, [h]) for h in es]
+    elif kind == "stream":
+        cfg, theta0 = cfg_of(rng, lg_k=rng.choice([5, 5, 6, 7]))
+        k = 1 << cfg[0]
+        n = rng.choice([k // 2, k, 2 * k, 5 * k])
+        seed = cfg[3]
+        ops = [(7, [])]
+        x = rng.getrandbits(40)
+        for i in range(n):
+            ops.append((1, [x + i, pyref.murmur3_x64_128(pyref.le8(x + i), seed)[0]]))
+        if rng.random() < 0.5:
+            ops.append((4, []))
+    elif kind == "screened":
+        cfg, theta0 = cfg_of(rng, p=rng.choice([2.0 ** -20, 2.0 ** -30]))
+        seed = cfg[3]
+        ops = [(7, [])]
+        for i in range(rng.randint(1, 5)):
+            ops.append((1, [i, pyref.murmur3_x64_128(pyref.le8(i), seed)[0]]))
+    else:
+        cfg, theta0 = cfg_of(rng)
+        ops = [(7, [])]
+    ops.append((7, []))
+    for ordered in (1, 0):
+        ops.append((6, [ordered])); ops.append((10, [ordered])); ops.append((11, [ordered]))
+        for compressed in (0, 1):
+            ops.append((14, [ordered, compressed])); ops.append((13, [0])); ops.append((13, [1]))
+    return Case(cid, cfg, ops, tag="theta-codec-" + kind)
+
+
+# ---- the image formats, written from the format description (independent of the crate and of the Coq model)
+def le(x, n):
+    return list(int(x).to_bytes(n, "little"))
+
+
+def bitstream(values, w):
+    bits = []
+    for v in values:
+        bits += [(v >> (w - 1 - i)) & 1 for i in range(w)]
+    while len(bits) % 8:
+        bits.append(0)
+    return [sum(bits[8 * j + t] << (7 - t) for t in range(8)) for j in range(len(bits) // 8)]
+
+
+def enc_image(variant, entries, theta, seed_hash, ordered, empty, si_flag=False):
+    n = len(entries); est = theta < MAX_THETA
+    body = [b for e in entries for b in le(e, 8)]
+    if variant == 1:
+        return [3, 1, 3, 0, 0, 0, 0, 0] + le(n, 4) + [0] * 4 + le(theta, 8) + body
+    if variant == 2:
+        pre = 3 if est else (1 if empty else 2)
+        out = [pre, 2, 3, 0, 0, 0] + le(seed_hash, 2)
+        if pre > 1:
+            out += le(n, 4) + [0] * 4
+        if pre == 3:
+            out += le(theta, 8)
+        return out + body
+    if variant == 3:
+        single = n == 1 and not est and not empty
+        pre = 1 if empty else (3 if est else (1 if single else 2))
+        flags = 2 | 8 | (4 if empty else 0) | (16 if ordered else 0) | (32 if (si_flag and single) else 0)
+        out = [pre, 3, 3, 0, 0, flags] + le(seed_hash, 2)
+        if empty:
+            return out
+        if pre > 1:
+            out += le(n, 4) + [0] * 4
+        if pre == 3:
+            out += le(theta, 8)
+        return out + body
+    # serVer 4
+    ds = [e - p for e, p in zip(entries, [0] + entries[:-1])]
+    ored = 0
+    for d in ds:
+        ored |= d
+    w = ored.bit_length()
+    neb = (n.bit_length() + 7) // 8
+    out = [2 if est else 1, 4, 3, w, neb, 2 | 8 | 16] + le(seed_hash, 2)
+    if est:
+        out += le(theta, 8)
+    return out + le(n, neb) + bitstream(ds, w)
+
+
+def random_abs(rng, variant):
+    """a random abstract compact sketch that the variant can express"""
+    theta = rng.choice([MAX_THETA, MAX_THETA, rng.randint(2, MAX_THETA - 1), 1 << rng.randint(8, 62)])
+    shape = rng.choice(["empty", "single", "zero", "few", "few", "block", "many"])
+    n = {"empty": 0, "single": 1, "zero": 0, "few": rng.randint(2, 7), "block": rng.choice([8, 16, 9, 15, 24]),
+         "many": rng.randint(10, 90)}[shape]
+    if shape == "empty":
+        theta = MAX_THETA
+    n = min(n, theta - 1)
+    es = crafted_entries(rng, n, rng.randint(1, 63), theta)
+    ordered = True
+    if variant == 3 and rng.random() < 0.4 and len(es) > 1:
+        rng.shuffle(es); ordered = False
+    empty = shape == "empty"
+    if variant in (1, 2):
+        empty = (len(es) == 0 and theta == MAX_THETA)
+    if variant == 4:
+        if len(es) == 0 or (len(es) == 1 and theta == MAX_THETA):
+            es = crafted_entries(rng, 3, rng.randint(1, 62), theta) or [1]
+            if len(es) == 1 and theta == MAX_THETA:
+                theta = MAX_THETA - 1
+        empty = False
+    return es, theta, ordered, empty
+
+
+def gen_foreign_case(rng, cid, tier):
+    """C13: images of every format variant, written by the independent encoder, fed to deserialize"""
+    cfg, _ = cfg_of(rng, lg_k=5)
+    sh = cfg[4]
+    ops = [(7, [])]
+    for _ in range(10 if tier == "quick" else 30):
+        variant = rng.choice([1, 2, 3, 3, 4, 4])
+        es, theta, ordered, empty = random_abs(rng, variant)
+        img = enc_image(variant, es, theta, sh, ordered, empty, si_flag=rng.random() < 0.5)
+        ops.append((12, img)); ops.append((13, [0])); ops.append((13, [1]))
+    return Case(cid, cfg, ops, tag="theta-foreign")
+
+
+def mutate(rng, img):
+    b = list(img)
+    for _ in range(rng.choice([1, 1, 1, 2, 3])):
+        r = rng.random()
+        if r < 0.22 and b:
+            i = rng.randrange(min(len(b), 24)); b[i] = rng.choice([0, 1, 2, 3, 4, 5, 8, 9, 63, 64, 65, 127, 128, 255, rng.randrange(256)])
+        elif r < 0.36 and b:
+            i = rng.randrange(len(b)); b[i] ^= 1 << rng.randrange(8)
+        elif r < 0.50:
+            b = b[:rng.randrange(len(b) + 1)]
+        elif r < 0.58:
+            b += [rng.randrange(256) for _ in range(rng.randint(1, 16))]
+        elif r < 0.68 and len(b) >= 12:
+            # entry count field (serVer 1..3: u32 @8; serVer 4: after the preamble)
+            v = rng.choice([0, 1, 2, 7, 8, 9, 255, 256, 65535, 2**24, 2**31, 2**32 - 1, len(b) // 8, len(b) // 8 + 1])
+            off = (8 * b[0] if b[1] == 4 else 8)
+            if off + 4 <= len(b):
+                b[off:off + 4] = le(v, 4)
+        elif r < 0.78 and len(b) >= 24:
+            v = rng.choice([0, 1, 2, 3, 1 << 20, MAX_THETA, MAX_THETA - 1, MAX_THETA + 1, (1 << 64) - 1, rng.getrandbits(64)])
+            off = 8 if b[1] == 4 else 16
+            b[off:off + 8] = le(v, 8)
+        elif r < 0.86 and len(b) >= 6:
+            b[5] ^= 1 << rng.randrange(8)                      # flags
+        elif r < 0.93 and len(b) >= 5:
+            b[3] = rng.choice([0, 1, 7, 8, 62, 63, 64, 65, 200, 255])       # entry_bits (serVer 4)
+            b[4] = rng.choice([0, 1, 2, 3, 4, 5, 8, 9, 255]) if rng.random() < 0.5 else b[4]
+        elif len(b) > 16:
+            i = rng.randrange(8, len(b)); v = rng.choice([0, 255])
+            for j in range(i, min(i + 8, len(b))):
+                b[j] = v
+    return b
+
+
+def gen_malformed_case(rng, cid, tier):
+    """C14: structure-aware mutations of valid images of every variant, and random bytes; Ok values are
+    queried by the harness and re-serialized both ways"""
+    cfg, _ = cfg_of(rng, lg_k=5)
+    sh = cfg[4]
+    ops = [(7, [])]
+    for _ in range(14 if tier == "quick" else 40):
+        if rng.random() < 0.06:
+            img = [rng.randrange(256) for _ in range(rng.randint(0, 40))]
+            if len(img) > 2 and rng.random() < 0.7:
+                img[2] = 3; img[1] = rng.choice([1, 2, 3, 4]); img[0] = rng.choice([1, 2, 3])
+        else:
+            variant = rng.choice([1, 2, 3, 3, 4, 4, 4])
+            es, theta, ordered, empty = random_abs(rng, variant)
+            img = mutate(rng, enc_image(variant, es, theta, sh, ordered, empty, si_flag=rng.random() < 0.3))
+        ops.append((12, img)); ops.append((13, [0])); ops.append((13, [1]))
+    return Case(cid, cfg, ops, tag="theta-malformed")
+
+
+def gen_size_case(rng, cid, tier, big=False):
+    """C18: a long stream; retained count and image sizes observed after every power-of-two prefix"""
+    lg_k = rng.choice([5, 5, 6, 7, 8])
+    cfg, theta0 = cfg_of(rng, lg_k=lg_k, p=rng.choice([1.0, 1.0, 0.5]))
+    seed = cfg[3]
+    top = (17 if big else rng.choice([10, 12, 13])) if tier == "quick" else (22 if big else rng.choice([12, 14, 16]))
+    style = rng.choice(["distinct", "distinct", "repeated", "descending"])
+    ops = [(7, [])]
+    x0 = rng.getrandbits(40)
+    nxt = 1
+    for i in range(1, (1 << top) + 1):
+        if style == "distinct":
+            x = x0 + i
+        elif style == "repeated":
+            x = x0 + (i % 1000) * 7919 % (1 << (top - 2) if top > 4 else 4)
+        else:
+            x = x0 - i
+        ops.append((1, [x, pyref.murmur3_x64_128(pyref.le8(x), seed)[0]]))
+        if i == nxt:
+            nxt *= 2
+            ops.append((7, [])); ops.append((10, [1])); ops.append((11, [1]))
+    ops.append((4, [])); ops.append((7, [])); ops.append((10, [1])); ops.append((11, [1]))
+    return Case(cid, cfg, ops, tag="theta-size")
+
+
 def gen(rng, tier, n=None, focus=None):
     n = n or (120 if tier == "quick" else 1500)
+    if focus in ("codec", "layout"):
+        return [gen_codec_case(rng, i, tier) for i in range(n)]
+    if focus == "foreign":
+        return [gen_foreign_case(rng, i, tier) for i in range(n)]
+    if focus == "malformed":
+        return [gen_malformed_case(rng, i, tier) for i in range(n)]
+    if focus == "size":
+        return [gen_size_case(rng, i, tier, big=(i == 0)) for i in range(n)]
     cases = []
     for i in range(n):
         if tier == "thorough" and i % 150 == 149:
@@ -276,7 +538,8 @@ def gen(rng, tier, n=None, focus=None):
 
 
 def nontrivial(case, obs):
-    """at least 3 distinct hashes offered, some observation of the retained set, and a non-empty sketch at some point"""
+    """some observation of the retained set, and either at least 3 distinct hashes offered with a retained entry at
+    some point, or a sketch that saw updates which theta screened out"""
     hs = set()
     for c, a in case.ops:
         if c == 1:
@@ -287,4 +550,7 @@ def nontrivial(case, obs):
             hs.add(a[2] >> 1)
     seen = any(c in (6, 7) for c, a in case.ops)
     nonempty = any(o and o[0] > 0 for (c, a), o in zip(case.ops, obs or []) if c in (1, 2, 3))
-    return len(hs) >= 3 and seen and nonempty
+    # a sampling sketch whose updates were all screened out: not empty although it retains nothing
+    screened = any(o and len(o) > 3 and o[3] == 0 for (c, a), o in zip(case.ops, obs or []) if c == 7)
+    codec = any(c in (12, 14) for c, a in case.ops)
+    return (seen and ((len(hs) >= 3 and nonempty) or (len(hs) >= 1 and screened))) or codec
